@@ -8,15 +8,15 @@ echo "suite with change: $(cargo test --workspace --no-fail-fast --offline 2>&1 
 if [ -f $O/demo_test.rs ]; then
   cp $O/demo_test.rs tests/demo_test.rs
   echo "demo with change:    $(cargo test --test demo_test --offline 2>&1 | grep -E '^test result' | head -1)"
-  git stash -q -- src 2>/dev/null || git stash -q
+  git apply -R $O/patch.diff   # (not git stash: the stash stack is shared between worktrees)
   echo "demo without change: $(cargo test --test demo_test --offline 2>&1 | grep -E '^test result' | head -1)"
-  git stash pop -q
+  git apply $O/patch.diff
   rm -f tests/demo_test.rs
 elif [ -f $O/demo.sh ]; then
   cargo build --offline 2>&1 | tail -1
   (bash $O/demo.sh >/dev/null 2>&1; echo "demo with change: exit $?")
-  git stash -q; cargo build --offline 2>&1 | tail -1
+  git apply -R $O/patch.diff; cargo build --offline 2>&1 | tail -1
   (bash $O/demo.sh >/dev/null 2>&1; echo "demo without change: exit $?")
-  git stash pop -q
+  git apply $O/patch.diff
 fi
 git status --short | head -5
